@@ -747,6 +747,45 @@ package badger
 //@   assert[deleted-or-expired-hidden] before call fill#2 : !ret(isDeletedOrExpired#1)
 //@   assert[key-remembered-first] before call SafeCopy#1 : !called(isDeletedOrExpired) && arg0 == it.lastKey
 
+// fill: the item shows the current entry: meta, user meta, expiry and value (or pointer) bytes
+// of the current value, the version and user key of the current key.
+//@ func (*Iterator).fill
+//@   props C05 C06 C01
+//@   light
+//@   assert[version-of-current-key] before call ParseTs : arg0 == ret(Key#1)
+//@   assert[user-key-of-current-key] before call ParseKey : arg0 == ret(Key#2)
+//@   assert[key-copied] before call SafeCopy#1 : arg1 == ret(ParseKey#1)
+//@   assert[value-copied] before call SafeCopy#2 : arg1 == ret(Value#1).Value
+//@   assert[as-stored] before return : item.meta == ret(Value#1).Meta && item.userMeta == ret(Value#1).UserMeta && item.expiresAt == ret(Value#1).ExpiresAt && item.version == ret(ParseTs#1) && item.key == ret(SafeCopy#1) && item.vptr == ret(SafeCopy#2) && item.val == nil
+
+// hasPrefix: in forward mode with a prefix, the user key of the current entry must start with
+// the prefix; otherwise every key is in range.
+//@ func hasPrefix
+//@   props C05
+//@   light
+//@   assert[prefix-on-user-key] before call HasPrefix : arg0 == ret(ParseKey#1) && arg1 == it.opt.Prefix && !it.opt.Reverse && len(it.opt.Prefix) > 0
+//@   assert[user-key-of-current] before call ParseKey : arg0 == ret(Key#1)
+//@   assert[decided-by-prefix] before return#1 : result == ret(HasPrefix#1)
+//@   assert[otherwise-in-range] before return#2 : result && (it.opt.Reverse || len(it.opt.Prefix) == 0)
+
+// Valid: an item is current and its key lies within the iterator's prefix (equals it, for a key
+// iterator); ValidForPrefix additionally tests the caller's prefix.
+//@ func (*Iterator).Valid
+//@   props C05
+//@   requires it != nil
+//@   ensures[none] it.item == nil ==> !result
+//@   ensures[key-iterator] it.item != nil && it.opt.prefixIsKey ==> (result <==> bytes(it.item.key) == bytes(it.opt.Prefix))
+//@   ensures[prefix] it.item != nil && !it.opt.prefixIsKey ==> (result <==> hasPrefix(it.item.key, it.opt.Prefix))
+//@   assigns nothing
+
+//@ func (*Iterator).ValidForPrefix
+//@   props C05
+//@   requires it != nil
+//@   ensures[none] it.item == nil ==> !result
+//@   ensures[both-prefixes] it.item != nil && !it.opt.prefixIsKey ==> (result <==> hasPrefix(it.item.key, it.opt.Prefix) && hasPrefix(it.item.key, prefix))
+//@   ensures[key-and-prefix] it.item != nil && it.opt.prefixIsKey ==> (result <==> bytes(it.item.key) == bytes(it.opt.Prefix) && hasPrefix(it.item.key, prefix))
+//@   assigns nothing
+
 // ---- streams (C25): one snapshot per run ----
 
 // Every producer goroutine of one Stream run must read the same snapshot. With a caller-given
